@@ -73,4 +73,26 @@ def runLate (s : St) : List Ev → St
   | [] => s
   | e :: es => runLate (stepLate s e) es
 
+/-- The thread-based MQTT gateway.  Its transport has no connection to close (`MQTTTransport.disconnect`
+    does nothing), so a reply is published whenever a job runs.  What protects the file is the poll
+    loop itself: `while not self._stop_event.is_set()` — once stop() has set the event (`disconnect`
+    stands for that moment here) no queued job is run any more; it stays in the queue. -/
+def stepMqtt (s : St) : Ev → St
+  | .proc c => if s.connected then { s with known := c :: s.known, dirty := true, handed := c :: s.handed } else s
+  | e => step s e
+
+def runMqtt (s : St) : List Ev → St
+  | [] => s
+  | e :: es => runMqtt (stepMqtt s e) es
+
+/-- a poll loop that keeps draining its queue after the stop event is set (it looks at the event only
+    when the queue is empty): every job runs and is published -/
+def stepMqttDrain (s : St) : Ev → St
+  | .proc c => { s with known := c :: s.known, dirty := true, handed := c :: s.handed }
+  | e => step s e
+
+def runMqttDrain (s : St) : List Ev → St
+  | [] => s
+  | e :: es => runMqttDrain (stepMqttDrain s e) es
+
 end MySensors.StopOrder
